@@ -18,7 +18,15 @@ import functools
 def parse(text):
     """real parser + validation, once per text (about 1 s)"""
     from mistral.lang import parser as spec_parser
-    return spec_parser.get_workflow_list_spec_from_yaml(text).get_workflows()[0]
+    from vt import env
+    env.fast_schema_check()
+    if text not in _PARSED:
+        _PARSED[text] = spec_parser.get_workflow_list_spec_from_yaml(
+            text).get_workflows()[0]
+    return _PARSED[text]
+
+
+_PARSED = {}
 
 
 def completed(state):
@@ -336,3 +344,109 @@ def c01_e(ctx):
     for shape, text in shapes.RUN_SHAPES.items():
         yield Case(shape, run_case(shape, text, ctx.pick(1, 2)),
                    needed=['quiescent'], max_paths=300000)
+
+
+# ---------------------------------------------------------------------------
+# C01.G  the SHAPE of the workflow is a solver choice too
+# ---------------------------------------------------------------------------
+_NAMES = 'abcd'
+
+
+def gen_shape(n, kinds, joins):
+    """A direct workflow over n tasks with forward edges only: for every
+    pair i < j the clause kind of the route i -> j is a solver choice
+    (none / on-success / on-error / on-complete); a task with >= 2 inbound
+    routes is a join whose kind is a solver choice.  Returns (key, text)."""
+    edges = {}
+    for j in range(1, n):
+        for i in range(j):
+            edges[(i, j)] = choice('e%d%d' % (i, j), kinds)
+    join = {}
+    for j in range(1, n):
+        inbound = [i for i in range(j) if edges[(i, j)] != 'none']
+        if len(inbound) >= 2:
+            opts = [x for x in joins
+                    if not isinstance(x, int) or x <= len(inbound)]
+            join[j] = choice('join%d' % j, opts)
+    lines = ["version: '2.0'", 'wf:', '  tasks:']
+    for i in range(n):
+        lines.append('    %s:' % _NAMES[i])
+        lines.append('      action: std.noop')
+        if i in join:
+            lines.append('      join: %s' % join[i])
+        for kind, key in (('S', 'on-success'), ('E', 'on-error'),
+                          ('C', 'on-complete')):
+            tg = [_NAMES[j] for j in range(i + 1, n)
+                  if edges[(i, j)] == kind]
+            if tg:
+                lines.append('      %s: [%s]' % (key, ', '.join(tg)))
+    key = ''.join('%s' % edges[(i, j)][0] for j in range(1, n)
+                  for i in range(j)) + '/' + ','.join(
+        '%s=%s' % (_NAMES[j], v) for j, v in sorted(join.items()))
+    return key, '\n'.join(lines) + '\n'
+
+
+def gen_case(n, kinds, joins, preemptions, oid='C01.G'):
+    def case():
+        key, text = gen_shape(n, kinds, joins)
+        note('shape', key)
+        inner = run_case('gen%d' % n, text, preemptions, oid=oid)
+        inner()
+        reach('shape-ran')
+        if 'join' in text:
+            reach('shape-with-join')
+    return case
+
+
+@obligation(
+    'C01.G', engine='symx+world(minidb)',
+    functions=['mistral.engine.default_engine:DefaultEngine.start_workflow',
+               'mistral.engine.default_engine:DefaultEngine.on_action_complete',
+               'mistral.engine.task_handler:_refresh_task_state',
+               'mistral.engine.task_handler:_check_affected_tasks',
+               'mistral.engine.tasks:Task.complete',
+               'mistral.engine.tasks:Task.defer',
+               'mistral.engine.dispatcher:dispatch_workflow_commands',
+               'mistral.engine.workflows:Workflow.check_and_complete',
+               'mistral.workflow.direct_workflow:'
+               'DirectWorkflowController._find_next_tasks',
+               'mistral.workflow.direct_workflow:'
+               'DirectWorkflowController._get_join_logical_state',
+               'mistral.workflow.direct_workflow:'
+               'DirectWorkflowController.all_errors_handled',
+               'mistral.lang.v2.workflows:DirectWorkflowSpec.'
+               'validate_semantics'],
+    bounds={'quick': 'EVERY direct workflow over 3 tasks with forward routes: '
+                     'for each pair i<j the route is none / on-success / '
+                     'on-error / on-complete (solver choice), a task with >= '
+                     '2 inbound routes is a join all / one / 2 (solver '
+                     'choice); every action outcome symbolic; delivery '
+                     'order: FIFO with <= 1 out-of-order delivery',
+            'thorough': 'every such workflow over 4 tasks with routes none / '
+                        'on-success / on-error and joins all / one; <= 1 '
+                        'out-of-order delivery'},
+    stubs=['minidb', 'QueueRPC', 'FakeScheduler', 'FakeExecutor',
+           'post-commit queue inline', 'jsonschema schema check memoised'],
+    outside='cycles, guards, engine commands, more than 4 tasks, tasks with '
+            'several executions (a non-join task with two inbound routes '
+            'never occurs: it is made a join)',
+    timeout=(500, 3000))
+def c01_g(ctx):
+    """for every generated shape, outcome assignment and explored delivery
+    order the run ends finished with the workflow and task states the
+    reference semantics prescribes, without undeclared errors"""
+    boot()
+    if ctx.quick:
+        yield Case('3-tasks', gen_case(3, ['none', 'S', 'E', 'C'],
+                                       ['all', 'one', 2], 1),
+                   needed=['shape-ran', 'shape-with-join', 'quiescent'],
+                   max_paths=2000000, shard_depth=5, procs=14)
+    else:
+        yield Case('3-tasks', gen_case(3, ['none', 'S', 'E', 'C'],
+                                       ['all', 'one', 2], 2),
+                   needed=['shape-ran', 'shape-with-join', 'quiescent'],
+                   max_paths=2000000, shard_depth=5, procs=14)
+        yield Case('4-tasks', gen_case(4, ['none', 'S', 'E'],
+                                       ['all', 'one'], 1),
+                   needed=['shape-ran', 'shape-with-join', 'quiescent'],
+                   max_paths=5000000, shard_depth=8, procs=14)
